@@ -16,7 +16,8 @@ EXTENDS Locals, TLC
 
 CONSTANTS Vals, MaxStack, MaxOps, OpKinds, Made0,
           Bug      \* "none" | "setattr" | "delattr" | "release" | "push" | "pop" |
-                   \* "release_stack" | "proxy_early" | "spawn_fresh" | "release_all" | "falsy_unbound"
+                   \* "release_stack" | "proxy_early" | "spawn_fresh" | "release_all" | "falsy_unbound" |
+                   \* "iop_rebind"
 
 VARIABLES st,     \* contract state (Locals.tla)
           im,     \* implementation state
@@ -34,7 +35,8 @@ EmptyD == [nm \in Names |-> NoBox]
 \*      cont : Boxes -> Vals, pmade : set of proxy kinds, pearly : PKinds -> box captured at creation]
 InitImpl == [hd |-> [r \in Refs |-> EmptyD], hl |-> [r \in Refs |-> <<>>],
              cvd |-> [c \in Ctxs |-> NoRef], cvl |-> [c \in Ctxs |-> NoRef],
-             cont |-> [b \in Boxes |-> Init0(b)], pmade |-> Made0, pearly |-> [k \in PKinds |-> NoBox]]
+             cont |-> [b \in Boxes |-> Init0(b)], pmade |-> Made0, pearly |-> [k \in PKinds |-> NoBox],
+             pproxy |-> [k \in PKinds |-> TRUE]]      \* the Python name k still holds the LocalProxy
 
 DictOf(I, c) == IF I.cvd[c] = NoRef THEN EmptyD ELSE I.hd[I.cvd[c]]
 ListOf(I, c) == IF I.cvl[c] = NoRef THEN <<>> ELSE I.hl[I.cvl[c]]
@@ -108,8 +110,14 @@ INext(I, alive, o) ==
          LET I1 == SetDict(I, alive, c, EmptyD, "release") IN SetList(I1, alive, c, <<>>, "release_stack")
     [] o.op = "mkproxy" -> [I EXCEPT !.pmade = @ \cup {o.k},
                                      !.pearly[o.k] = IF o.k = TOP THEN TopOf(l) ELSE d[o.k]]
-    [] o.op \in ObjOps -> IF Resolve(I, c, o.k) # NoBox
-                           THEN [I EXCEPT !.cont = ObjNext(I.cont, Resolve(I, c, o.k), o)] ELSE I
+    [] o.op \in ObjOps ->
+         LET b == Resolve(I, c, o.k) IN
+         IF b = NoBox THEN I
+         \* "return the operator's result unless it is the object itself": for an immutable object
+         \* `name += x` then rebinds the caller's name to a plain, context-free value
+         ELSE IF Bug = "iop_rebind" /\ o.op \in IopOps /\ Immutable(b) /\ ObjRet(I.cont, b, o) = OkR
+              THEN [I EXCEPT !.pproxy[o.k] = FALSE]
+         ELSE [I EXCEPT !.cont = ObjNext(I.cont, b, o)]
     [] o.op = "spawn" -> IF Bug = "spawn_fresh" THEN I     \* child starts empty instead of with the snapshot
                          ELSE [I EXCEPT !.cvd[o.child] = I.cvd[c], !.cvl[o.child] = I.cvl[c]]
     [] OTHER -> I
@@ -124,11 +132,17 @@ AllOps ==
   \cup {O(c, op, "", 0, 0, k, 0) : c \in Ctxs, op \in {"mkproxy", "proxy_read"}, k \in PKinds}
   \cup {O(c, "proxy_mutate", "", 0, v, k, 0) : c \in Ctxs, v \in Vals, k \in PKinds}
   \cup {O(c, op, "", 0, 0, k, 0) : c \in Ctxs, op \in {"proxy_pop", "proxy_clear"}, k \in PKinds}
+  \cup {O(c, op, "", 0, v, k, 0) : c \in Ctxs, op \in {"proxy_iadd", "proxy_isub", "proxy_ior"}, v \in IopArgs, k \in PKinds}
+  \cup {O(c, "proxy_imul", "", 0, 2, k, 0) : c \in Ctxs, k \in PKinds}
   \cup {O(c, "spawn", "", 0, 0, "", ch) : c \in Ctxs, ch \in Ctxs}
 
 Allowed(S, o) == /\ o.op \in OpKinds
                  /\ Enabled(S, o)
                  /\ (o.op = "push" => Len(S.stack[o.ctx]) < MaxStack)
+                 \* lists grown through a proxy stay small
+                 /\ (o.op \in {"proxy_iadd", "proxy_imul"} =>
+                        LET b == Bound(S, o.ctx, o.k) IN
+                        IF b = NoBox THEN TRUE ELSE IF KindOf(b) # "list" THEN TRUE ELSE S.cont[b] <= 2)
                  /\ (o.op = "spawn" => \A d \in Ctxs : (d < o.child) => d \in S.alive)
 
 Init == st = InitState(Made0) /\ im = InitImpl /\ bad = FALSE /\ n = 0
@@ -146,6 +160,7 @@ Spec == Init /\ [][Next]_vars
 \* ---- refinement: what every context sees in the implementation is the contract's view ------
 ViewEqualsIdeal == \A c \in st.alive : DictOf(im, c) = st.attrs[c] /\ ListOf(im, c) = st.stack[c]
 ProxiesAgree    == /\ im.pmade = st.made
+                   /\ \A k \in st.made : im.pproxy[k]
                    /\ \A c \in st.alive : \A k \in st.made : Resolve(im, c, k) = Bound(st, c, k)
 ContentsAgree   == im.cont = st.cont
 ReturnsAgree    == ~bad
